@@ -7,5 +7,6 @@ package chanstate
 
 //@ func (c *OpenChannel) NextLocalHtlcIndex
 //@   props C07
+//@   bounds-safe
 //@   ensures result1 == nil && retn(RemoteCommitChainTip, 0) != nil ==> result0 == retn(RemoteCommitChainTip, 0).Commitment.LocalHtlcIndex
 //@   ensures result1 == nil && retn(RemoteCommitChainTip, 0) == nil ==> result0 == c.RemoteCommitment.LocalHtlcIndex
